@@ -97,3 +97,14 @@ func (o *Overlay) VerifLocksFree() map[string]bool {
 func (n *TreeNodeInstance) VerifTreeOf() *Tree {
 	return n.overlay.treeStorage.Get(n.token.TreeID)
 }
+
+// VerifExpectTree marks the tree id as requested so that a ResponseTree for it is accepted.
+func (o *Overlay) VerifExpectTree(id TreeID) { o.treeStorage.Register(id) }
+
+// VerifForgetTree removes the tree id from the store at once.
+func (o *Overlay) VerifForgetTree(id TreeID) {
+	ts := o.treeStorage
+	ts.Lock()
+	defer ts.Unlock()
+	delete(ts.trees, id)
+}
